@@ -24,10 +24,10 @@ type gen struct {
 	batchMax   int
 }
 
-var allLeafKinds = []string{"base", "base", "plain", "retry", "fb", "retryfb", "func", "func", "func", "zst", "ovr", "val"}
+var allLeafKinds = []string{"base", "base", "plain", "retry", "fb", "retryfb", "func", "func", "func", "zst", "ovr", "val", "deco"}
 var payKinds = []string{"int", "str", "float", "map", "slice", "ptr", "struct", "nil", "nilptr", "nilmap", "nilslice", "errpay", "actempty"}
-var failKinds = []string{"sentinel", "wrapped", "custom", "wrapcustom", "ctxerr", "hint"}
-var actionAlphabet = []string{"default", "", "a", "ab", "b", "Default"} // "Default" differs from the default action by case only
+var failKinds = []string{"sentinel", "wrapped", "custom", "wrapcustom", "ctxerr", "hint", "list"}
+var actionAlphabet = []string{"default", "", "a", "ab", "b", "Default", "a "} // "Default" differs from the default action by case only
 
 func pick[T any](r *rand.Rand, xs []T) T { return xs[r.IntN(len(xs))] }
 
@@ -244,8 +244,8 @@ func (g *gen) leaf(nv int) *NodeSpec {
 func (g *gen) flowOver(members []int, density float64) *NodeSpec {
 	f := &NodeSpec{ID: len(g.sc.Nodes), Kind: "flow", Start: pick(g.r, members)}
 	for _, from := range members {
-		for _, a := range []string{"default", "a", "ab", "b", "Default", ""} {
-			if !g.chance(density) || (a == "" && !g.chance(0.4)) {
+		for _, a := range []string{"default", "a", "ab", "b", "Default", "", "a "} { // ("a " is an action of its own, not "a")
+			if !g.chance(density) || ((a == "" || a == "a ") && !g.chance(0.4)) {
 				continue // (the empty action is its own table key: no node can finish with it, so such an edge is dead)
 			}
 			to := -1
@@ -602,6 +602,9 @@ func genC01base(prop, tier string, r *rand.Rand) *Scn {
 			n := g.leaf(1 + r.IntN(3))
 			g.sc.Root = n.ID
 			g.sc.Runs = len(n.Visits)
+			if r.IntN(12) == 0 {
+				g.sc.NilStore = true // the very store given to the run is what prep and post get - also when it is nil
+			}
 			if len(n.Visits) >= 2 && hasPhase(n, 1) && r.IntN(5) == 0 {
 				// re-entrancy on one goroutine: an exec attempt of the first run runs
 				// the same node object again (the second visit) and then carries on -
